@@ -13,6 +13,7 @@ def run(ctx):
         "one turn, doubled text exactly for circular targets (CircularRecord, or linear=False), plain text for linear "
         "ones, TypeError for other targets. K1: every group of a reported match is the circular interval of its span in "
         "all regions; start/end/span delegate unchanged. 'Either letter case' is read as the case of the target letters."
+        ' letterwise: for an arbitrary pattern what reaches re.compile is a constant prefix followed by lettermap.get(x, x) for each letter in order, each table value being one regex atom -- so the per-letter obligations decide every pattern. K2.every-start: no start position of a non-empty range is left without an anchored attempt. K1 evaluates group() on match objects shaped as search builds them.'
     )
     r.not_decided = ["greedy/lazy choice inside re (T2)", "lower-case ambiguity letters in a pattern are not transcribed by the code; no rule is armed on that"]
     ctx.guard(transcription_rule, ctx, "C16.transcription")
